@@ -99,7 +99,16 @@ func buildFilter(c *Case) seccomp.Filter {
 		}
 		seccomp.VerifSetArch(p, info)
 	}
-	return seccomp.Filter{NoNewPrivs: c.NNP, Flag: seccomp.FilterFlag(c.Flags), Policy: *p}
+	flag := seccomp.FilterFlag(c.Flags)
+	for _, n := range c.FlagNames {
+		switch n {
+		case "tsync":
+			flag |= seccomp.FilterFlagTSync
+		case "log":
+			flag |= seccomp.FilterFlagLog
+		}
+	}
+	return seccomp.Filter{NoNewPrivs: c.NNP, Flag: flag, Policy: *p}
 }
 
 func doProbe(p Probe) (r1 uint64, errno uint64) {
